@@ -5,6 +5,7 @@ package main
 // construction, or reported unless tabled.
 
 import (
+	"go/constant"
 	"fmt"
 	"go/ast"
 	"go/token"
@@ -157,6 +158,7 @@ func (v *mrVerdict) add(format string, a ...interface{}) {
 
 func checkC20(c *Ctx) {
 	c.explainf("C20 decides: every `range` over a Go map in the interpreter package and the command is order-independent by construction — its body only writes map elements, deletes, counts, sets idempotent flags, appends to a slice that is sorted before any other use, and calls nothing that advances the symbol counter, writes a package variable or prints — or it is reported (leaving the loop on the first match, panicking or returning from inside it, concatenating, or calling an order-sensitive function). Package-level variables written on script-reachable paths are enumerated and frozen. It does not decide time, randomness or pointer printing (excluded by the property).")
+	c.checkNoAddressesInText("C20-ADDR")
 	osi := c.orderSensitive()
 	ranges := c.mapRanges()
 	// script-reachable functions: full interpreter + standard setup + command
@@ -683,4 +685,288 @@ func paramOnlyRead(p *ssa.Parameter) bool {
 		}
 	}
 	return true
+}
+
+// checkNoAddressesInText: C20-ADDR. Heap addresses differ from run to run. A
+// text that reaches the script -- the message of an error a builtin or the VM
+// returns, or a string value -- must not contain one. The rule examines every
+// fmt formatting call with a constant format in functions reachable from the
+// script entry points whose result flows into an error or a string that is
+// returned: the verb %p always prints an address; %v, %+v and %#v print the
+// addresses of pointers nested inside the value (and of maps, channels and
+// functions), which is decided from the static type of the argument. An
+// argument of the language's value interface (Sexp) holds pointers to records
+// with nested pointers. Diagnostic dumps written to the terminal are not
+// texts of the program's result and are not examined.
+func (c *Ctx) checkNoAddressesInText(rule string) {
+	sexpT := c.named("Sexp")
+	reach := newRTA(c.Prog, nil, nil)
+	for _, name := range append([]string{"NewZlisp", "NewZlispSandbox", "Zlisp.StandardSetup", "Zlisp.ImportDemoData", "RegisterDemoStructs"}, scriptEntry...) {
+		reach.addRoot(c.fn(name))
+	}
+	reach.run()
+	var mayAddr func(t types.Type, depth int, top bool) bool
+	mayAddr = func(t types.Type, depth int, top bool) bool {
+		if depth > 4 {
+			return false
+		}
+		switch u := t.Underlying().(type) {
+		case *types.Pointer:
+			if top {
+				// &T{...}: the address of the top-level pointer itself is not printed, nested ones are
+				return mayAddr(u.Elem(), depth+1, false)
+			}
+			return true
+		case *types.Map, *types.Chan, *types.Signature:
+			if _, isMap := u.(*types.Map); isMap {
+				m := u.(*types.Map)
+				return mayAddr(m.Key(), depth+1, false) || mayAddr(m.Elem(), depth+1, false)
+			}
+			return true
+		case *types.Slice:
+			return mayAddr(u.Elem(), depth+1, false)
+		case *types.Array:
+			return mayAddr(u.Elem(), depth+1, false)
+		case *types.Struct:
+			for i := 0; i < u.NumFields(); i++ {
+				if mayAddr(u.Field(i).Type(), depth+1, false) {
+					return true
+				}
+			}
+			return false
+		case *types.Interface:
+			if isErrorType(t) {
+				return false // printed through Error()
+			}
+			if sexpT != nil && types.Identical(t, sexpT) {
+				return true
+			}
+			// interface{}: a Go value handed in from outside the language (a recovered panic value, the result
+			// of a conversion to Go); what it holds is not decided here
+			return false
+		}
+		return false
+	}
+	n, nBad := 0, 0
+	for _, f := range c.zygoFuncs() {
+		if _, ok := reach.reach[topFn(f)]; !ok {
+			continue
+		}
+		eachInstr(f, func(b *ssa.BasicBlock, i int, in ssa.Instruction) {
+			call, ok := in.(*ssa.Call)
+			if !ok {
+				return
+			}
+			g := call.Call.StaticCallee()
+			if g == nil || fnPkgPath(g) != "fmt" || (g.Name() != "Errorf" && g.Name() != "Sprintf") || len(call.Call.Args) < 1 {
+				return
+			}
+			k, ok := call.Call.Args[0].(*ssa.Const)
+			if !ok || k.Value == nil || k.Value.Kind() != constant.String {
+				return
+			}
+			// the text must go somewhere the script can see: returned, stored in an error or a value
+			if !textEscapes(call) {
+				return
+			}
+			format := constant.StringVal(k.Value)
+			verbs := fmtVerbs(format)
+			args := variadicArgs(call)
+			n++
+			for vi, vb := range verbs {
+				if vb == "%p" {
+					nBad++
+					c.bad(rule, fnName(f), "address printed into a returned text: "+shortStr(format, 40), call.Pos(), "the verb %p writes a heap address into a text that is returned to the script (an error message or a string value): the same program gives a different text in every run")
+					return
+				}
+				if vi < len(args) && (vb == "%v" || vb == "%s") && stackTraceText(args[vi], f) {
+					nBad++
+					c.bad(rule, fnName(f), "goroutine stack trace written into a returned text: "+shortStr(format, 40), call.Pos(),
+						"the text of runtime.Stack is formatted into a text that is returned to the script: a Go stack trace lists argument words and frame addresses, so the same failing program gives a different error text in every run")
+					return
+				}
+				if vb != "%v" && vb != "%+v" && vb != "%#v" {
+					continue
+				}
+				if vi >= len(args) {
+					continue
+				}
+				at := args[vi]
+				for d := 0; d < 4; d++ {
+					if mi, ok := at.(*ssa.MakeInterface); ok {
+						at = mi.X
+					} else if ci, ok := at.(*ssa.ChangeInterface); ok {
+						at = ci.X
+					} else {
+						break
+					}
+				}
+				if mayAddr(at.Type(), 0, true) {
+					nBad++
+					c.bad(rule, fnName(f), "value dumped with "+vb+" into a returned text: "+shortStr(format, 40), call.Pos(),
+						"a value of type "+typeShort(at.Type())+" is formatted with "+vb+" into a text that is returned to the script: Go prints the addresses of the pointers, maps and functions nested in it, so the same program gives a different error text or value in every run")
+					return
+				}
+			}
+		})
+	}
+	if nBad == 0 {
+		c.check(n >= 50, rule, "package", "formatted texts examined", token.NoPos, fmt.Sprintf("%d formatting calls whose text is returned were examined: none prints an address", n), fmt.Sprintf("only %d formatting calls examined", n))
+	}
+}
+
+func fmtVerbs(format string) []string {
+	var out []string
+	rs := []rune(format)
+	for i := 0; i < len(rs); i++ {
+		if rs[i] != '%' {
+			continue
+		}
+		j := i + 1
+		flags := ""
+		for j < len(rs) && strings.ContainsRune("+-# 0123456789.*", rs[j]) {
+			if rs[j] == '+' || rs[j] == '#' {
+				flags += string(rs[j])
+			}
+			j++
+		}
+		if j >= len(rs) {
+			break
+		}
+		if rs[j] == '%' {
+			i = j
+			continue
+		}
+		out = append(out, "%"+flags+string(rs[j]))
+		i = j
+	}
+	return out
+}
+
+// variadicArgs: the values stored into the variadic slice of a fmt call.
+func variadicArgs(call *ssa.Call) []ssa.Value {
+	if len(call.Call.Args) < 2 {
+		return nil
+	}
+	sl, ok := call.Call.Args[len(call.Call.Args)-1].(*ssa.Slice)
+	if !ok {
+		return nil
+	}
+	al, ok := sl.X.(*ssa.Alloc)
+	if !ok {
+		return nil
+	}
+	byIdx := map[int64]ssa.Value{}
+	max := int64(-1)
+	for _, r := range *al.Referrers() {
+		ia, ok := r.(*ssa.IndexAddr)
+		if !ok {
+			continue
+		}
+		idx, ok := constIntOf(ia.Index)
+		if !ok {
+			continue
+		}
+		for _, r2 := range *ia.Referrers() {
+			if st, ok := r2.(*ssa.Store); ok {
+				byIdx[idx] = st.Val
+				if idx > max {
+					max = idx
+				}
+			}
+		}
+	}
+	out := make([]ssa.Value, max+1)
+	for i := range out {
+		out[i] = byIdx[int64(i)]
+		if out[i] == nil {
+			return nil
+		}
+	}
+	return out
+}
+
+// textEscapes: the string or error produced by the call is returned, stored, or passed on (not only printed to the terminal).
+func textEscapes(call *ssa.Call) bool {
+	seen := map[ssa.Value]bool{}
+	var walk func(v ssa.Value, d int) bool
+	walk = func(v ssa.Value, d int) bool {
+		if seen[v] || d > 6 || v.Referrers() == nil {
+			return false
+		}
+		seen[v] = true
+		for _, r := range *v.Referrers() {
+			switch x := r.(type) {
+			case *ssa.Return, *ssa.Store, *ssa.Panic, *ssa.MapUpdate:
+				return true
+			case *ssa.MakeInterface:
+				if walk(x, d+1) {
+					return true
+				}
+			case *ssa.ChangeInterface:
+				if walk(x, d+1) {
+					return true
+				}
+			case *ssa.Phi:
+				if walk(x, d+1) {
+					return true
+				}
+			case *ssa.BinOp:
+				if x.Op == token.ADD && walk(x, d+1) {
+					return true
+				}
+			case *ssa.Slice, *ssa.IndexAddr:
+				// into the variadic argument array of another formatting call
+				if vv, ok := x.(ssa.Value); ok && walk(vv, d+1) {
+					return true
+				}
+			case *ssa.Call:
+				g := x.Call.StaticCallee()
+				if g != nil && fnPkgPath(g) == "fmt" && (strings.HasPrefix(g.Name(), "Print") || strings.HasPrefix(g.Name(), "Fprint")) {
+					continue // written to the terminal
+				}
+				return true
+			}
+		}
+		return false
+	}
+	return walk(call, 0)
+}
+
+// stackTraceText: v is string(b) for a byte slice b, and the function (or its closures) fills a byte slice with runtime.Stack / debug.Stack.
+func stackTraceText(v ssa.Value, f *ssa.Function) bool {
+	for d := 0; d < 4; d++ {
+		if mi, ok := v.(*ssa.MakeInterface); ok {
+			v = mi.X
+		} else {
+			break
+		}
+	}
+	cv, ok := v.(*ssa.Convert)
+	if !ok {
+		return false
+	}
+	if sl, ok := cv.X.Type().Underlying().(*types.Slice); !ok || !types.Identical(sl.Elem(), types.Typ[types.Byte]) {
+		return false
+	}
+	takes := false
+	var all []*ssa.Function
+	var collect func(g *ssa.Function)
+	collect = func(g *ssa.Function) {
+		all = append(all, g)
+		for _, a := range g.AnonFuncs {
+			collect(a)
+		}
+	}
+	collect(topFn(f))
+	for _, g := range all {
+		eachInstr(g, func(b *ssa.BasicBlock, i int, in ssa.Instruction) {
+			if call, ok := in.(*ssa.Call); ok {
+				if h := call.Call.StaticCallee(); h != nil && ((fnPkgPath(h) == "runtime" && h.Name() == "Stack") || (fnPkgPath(h) == "runtime/debug" && h.Name() == "Stack")) {
+					takes = true
+				}
+			}
+		})
+	}
+	return takes
 }
